@@ -176,6 +176,8 @@ let dispatch (fn : string) (args : sx list) : sx =
   | "split_ell", [s] -> of_list of_str (split_ell (to_str s))
   | "ellipsis_match", [g; w] -> of_bool (ellipsis_match (to_str g) (to_str w))
   | "std_ellipsis_match", [w; g] -> of_bool (std_ellipsis_match (to_str w) (to_str g))
+  | "extract_inline", [t] -> of_bool (extract_inline (to_str t))
+  | "extract_inline_before_F31", [t] -> of_bool (extract_inline_before_F31 (to_str t))
   | "std_check_output", [e; n; w; g] -> of_bool (std_check_output (to_bool e) (to_bool n) (to_str w) (to_str g))
   (* Checker *)
   | "strip_ansi", [s] -> of_str (strip_ansi (to_str s))
